@@ -78,3 +78,10 @@ pub open spec fn cmp_float_int(bip: BuiltInPredicate, s: SS) -> Option<(f64, i64
         None => None,
     }
 }
+
+// f64::total_cmp (the IEEE totalOrder predicate: -0.0 before 0.0, NaNs ordered).  It is NOT the numeric order
+// the comparison predicates are documented with; it is specified (as an uninterpreted function of its operands)
+// only so that code using it can be type-checked and then fails the order clauses instead of stopping the verifier.
+pub uninterp spec fn f_total_cmp(a: f64, b: f64) -> Ordering;
+pub assume_specification[ f64::total_cmp ](a: &f64, b: &f64) -> (r: Ordering)
+    ensures r == f_total_cmp(*a, *b);
